@@ -122,3 +122,57 @@ def three_valued(test: ast.expr, leaf) -> Optional[bool]:
             return True
         return False if all(v is False for v in vals) else None
     return leaf(test)
+
+
+class NotConst(Exception):
+    pass
+
+
+def const_eval(e: ast.AST, env: dict):
+    """Evaluate an expression over python constants: literals, names/dotted names bound in `env`
+    (keys are names or dotted names), str.lower/upper/strip, ==, !=, in, not in, not/and/or, tuples/lists/sets."""
+    if isinstance(e, ast.Constant):
+        return e.value
+    if isinstance(e, (ast.Name, ast.Attribute)):
+        from ..model import dotted
+
+        d = dotted(e)
+        if d is not None and d in env:
+            return env[d]
+        raise NotConst(d or ast.unparse(e))
+    if isinstance(e, (ast.Tuple, ast.List, ast.Set)):
+        return tuple(const_eval(x, env) for x in e.elts)
+    if isinstance(e, ast.Call) and isinstance(e.func, ast.Attribute) and e.func.attr in ("lower", "upper", "strip") \
+            and not e.args and not e.keywords:
+        v = const_eval(e.func.value, env)
+        if not isinstance(v, str):
+            raise NotConst("method on non-string")
+        return getattr(v, e.func.attr)()
+    if isinstance(e, ast.UnaryOp) and isinstance(e.op, ast.Not):
+        return not const_eval(e.operand, env)
+    if isinstance(e, ast.BoolOp):
+        vals = [const_eval(v, env) for v in e.values]
+        return all(vals) if isinstance(e.op, ast.And) else any(vals)
+    if isinstance(e, ast.Compare):
+        left = const_eval(e.left, env)
+        res = True
+        for op, c in zip(e.ops, e.comparators):
+            right = const_eval(c, env)
+            if isinstance(op, ast.Eq):
+                r = left == right
+            elif isinstance(op, ast.NotEq):
+                r = left != right
+            elif isinstance(op, ast.In):
+                r = left in right
+            elif isinstance(op, ast.NotIn):
+                r = left not in right
+            elif isinstance(op, ast.Is):
+                r = left is right
+            elif isinstance(op, ast.IsNot):
+                r = left is not right
+            else:
+                raise NotConst("compare")
+            res = res and r
+            left = right
+        return res
+    raise NotConst(type(e).__name__)
